@@ -69,15 +69,19 @@ template<typename Alloc, typename Awt, typename Fn, typename ... Args>
 with_allocator<Alloc,async<void> > callback_await_coro(Alloc &, Fn fn, Args ... args) noexcept {
     using RetVal = std::decay_t<awaiter_return_value<Awt> >;
     Awt awt(std::forward<Args>(args)...);
+    bool called = false;    //the callback is called exactly once, even if it throws
     try {
         if constexpr(std::is_void_v<RetVal>) {
             co_await awt;
+            called = true;
             fn(await_result<void>{true});
         } else {
-            fn(await_result<RetVal>{&co_await awt});
+            auto &&result = co_await awt;
+            called = true;
+            fn(await_result<RetVal>{&result});
         }
     } catch (...) {
-        fn(await_result<RetVal>{});
+        if (!called) fn(await_result<RetVal>{});
     }
 }
 
